@@ -416,6 +416,10 @@ def run_c18_case(case, acc):
         other['market']['seed'] = cfg['market']['seed'] + 7919
         other['market']['adjust'] = not cfg['market']['adjust']
         other['market']['ratio'] = {k: 0.5 for k in cfg['market']['ratio']}
+        if case.get('seed', 0) % 2 == 0:
+            # ... over the same period on ANOTHER rebalance schedule
+            other['rebalance'] = {'daily': 'end_of_month', 'end_of_month': 'daily', 'weekly': 'daily'}.get(cfg['rebalance'], 'daily')
+            other.pop('weekday', None)
         one_digest(other)
         d1, r1, tr1 = one_digest(cfg)
         acc.count('C18:runs', 2)
